@@ -2,7 +2,7 @@
 (* Trace validation of lha_crc16_buf: every recorded call must be a Feed step of Crc16 whose
    resulting register equals the value the C code left in *crc.  Reset{init} starts a new
    execution from an arbitrary 16-bit register (the routine is a pure register update). *)
-EXTENDS Crc16, TLC, Json, IOUtils
+EXTENDS Crc16Feed, TLC, Json, IOUtils
 Trc == ndJsonDeserialize(IOEnv.TRACE)
 VARIABLE l
 tvars == <<reg, fed, l>>
